@@ -1385,3 +1385,80 @@ Q(name="e2_decrypt_prev_filter", props=["C04"], func=r"^decrypt_packet_body::\{c
   pre=lambda c: ule(c.inp("**_2.%d#discr" % c.field("connection/packet_crypto.rs", "PrevCrypto", "end_packet"), I64), bv(1)), post=dpf_post,
   bounds="every packet number and every end_packet: the previous keys are eligible iff the previous phase has no end packet yet or the packet number is below it",
   replay=("conn_update_keys_native", lambda m: [dict(remote=1), dict(remote=0)]))
+
+
+# ------------------------------------------------------------------ C16: what Datagrams::max_size promises and what Datagrams::send admits
+def dms_post(c, p):
+    st = p.p.state
+    mtu = "|call:PathData::current_mtu(**_1.0.%d)|" % c.field("connection/mod.rs", "Connection", "path")
+    ovh = next((x[2] for x in st.calls if re.search(r"predict_1rtt_overhead$", x[0])), None)
+    if ovh is None or mtu not in c.ex.decls:
+        return "false"
+    peer = "**_1.0.%d.%d" % (c.field("connection/mod.rs", "Connection", "peer_params"), tp_field(c, "max_datagram_frame_size"))
+    has_peer = eq(c.inp(peer + "#discr", I64), bv(1))
+    lim = c.inp(peer + "@Some.0.0", BV64)
+    BOUND = bv(9)                                       # Datagram::SIZE_BOUND: type byte + 8-byte length
+    rd = lambda k, s: c.ex.read_key(st, k, s).t
+    some = eq(rd("_0#discr", I64), bv(1))
+    room = "(bvsub (bvsub %s %s) %s)" % (zext(mtu, 48), ovh, BOUND)
+    peer_room = ite(ult(lim, BOUND), bv(0), "(bvsub %s %s)" % (lim, BOUND))
+    want = ite(ult(peer_room, room), peer_room, room)
+    return and_(eq(some, has_peer), imp(some, eq(rd("_0@Some.0", BV64), want)))
+
+
+Q(name="e2_datagrams_max_size", props=["C16", "C13"], func=r"datagrams\.rs:18:1[^>]*>::max_size$",
+  pure=[r"current_mtu$", r"predict_1rtt_overhead$"], allowed_panics=r"attempt to compute",
+  functions=["Datagrams::max_size"], pre=lambda c: ule(c.inp("**_1.0.%d.%d#discr" % (c.field("connection/mod.rs", "Connection", "peer_params"), tp_field(c, "max_datagram_frame_size")), I64), bv(1)), post=dms_post,
+  bounds="every MTU estimate, packet overhead and peer limit: None iff the peer did not advertise max_datagram_frame_size; otherwise min(peer limit - 9 (saturating), current_mtu - predicted 1-RTT overhead - 9), i.e. a frame with its largest length field always fits one packet on the current path and the peer's limit; current_mtu / predict_1rtt_overhead opaque",
+  replay=("dgram_api_native", lambda m: [dict(peer=p_, len_=l, drop=0) for (p_, l) in ((65535, 100), (50, 41), (50, 42), (5, 0))]))
+
+
+def dsend_post(c, p):
+    st = p.p.state
+    cfg = "***_1.0.%d.0.2" % c.field("connection/mod.rs", "Connection", "config")
+    recv_enabled = eq(c.inp("%s.%d#discr" % (cfg, c.field("config/transport.rs", "TransportConfig", "datagram_receive_buffer_size")), I64), bv(1))
+    sbs = c.inp("%s.%d" % (cfg, c.field("config/transport.rs", "TransportConfig", "datagram_send_buffer_size")), BV64)
+    ms = p.called(r"Datagrams::max_size$")
+    rd = lambda k, s: c.ex.read_key(st, k, s).t
+    is_err = eq(rd("_0#discr", I64), bv(1))
+    kind = rd("_0@Err.0#discr", I64)          # Disabled = 1? resolved below through the enum table
+    E = c.ex.enums["SendDatagramError"]
+    n = c.inp("_2.1", BV64)                   # Bytes { ptr, len, .. }: len
+    drop = c.inp("_3", BOOL)
+    push = p.called(r"VecDeque.*::push_back")
+    mk = p.called(r"make_space_for$")
+    hs = p.called(r"has_send_buffer_space$")
+    if not ms:
+        return and_(not_(recv_enabled), is_err, eq(kind, bv(E.index("Disabled"))), "true" if not push else "false")
+    supported = eq(c.inp(ms[0][2] + "#discr", I64), bv(1))
+    mx = c.inp(ms[0][2] + "@Some.0", BV64)
+    cap = ite(ult(sbs, mx), sbs, mx)
+    too_large = "(bvugt %s %s)" % (n, cap)
+    conj = [recv_enabled]
+    if push:
+        # admitted: supported, fits one packet AND the send buffer; room was made (drop) or was there (no drop)
+        conj += [not_(is_err), supported, not_(too_large)]
+        if mk:
+            conj += [drop, "true" if (mk[0][1][1][0] == "val" and mk[0][1][1][1].t == n and mk[0][1][2][1].t == sbs) else "false"]
+        elif hs:
+            conj += [not_(drop), hs[0][2], "true" if (hs[0][1][1][1].t == n and hs[0][1][2][1].t == sbs) else "false"]
+        else:
+            return "false"
+        pushed = push[0][1][1]
+        conj.append("true" if pushed[0] == "agg" else "false")
+    else:
+        conj.append(is_err)
+        conj.append(imp(not_(supported), eq(kind, bv(E.index("UnsupportedByPeer")))))
+        conj.append(imp(and_(supported, too_large), eq(kind, bv(E.index("TooLarge")))))
+        if hs:
+            conj += [supported, not_(too_large), not_(drop), not_(hs[0][2]), eq(kind, bv(E.index("Blocked")))]
+        else:
+            conj.append(or_(not_(supported), too_large))
+    return and_(*conj)
+
+
+Q(name="e2_datagrams_send", props=["C16"], func=r"datagrams\.rs:18:1[^>]*>::send$",
+  pure=[r"Datagrams::max_size$", r"has_send_buffer_space$"], allowed_panics=r"attempt to compute",
+  functions=["Datagrams::send"], pre=lambda c: "true", post=dsend_post,
+  bounds="every configuration, max_size verdict, datagram length and drop flag: Disabled iff receiving is disabled locally; UnsupportedByPeer iff max_size is None; TooLarge iff length > min(max_size, send buffer size); with drop the queue is trimmed for exactly this length; without drop a full buffer gives Blocked and queues nothing; only then is the datagram queued; make_space_for / has_send_buffer_space: dgram_send_space obligations",
+  replay=("dgram_api_native", lambda m: [dict(peer=p_, len_=l, drop=d) for (p_, l) in ((65535, 100), (50, 41), (50, 42), (65535, 2000)) for d in (0, 1)]))
